@@ -79,6 +79,9 @@ type FS struct {
 	// EOFWithData: readers report the final bytes together with io.EOF (allowed by io.Reader;
 	// archive/tar and many network readers do it).
 	EOFWithData bool
+	// MaxRead > 0: readers deliver at most MaxRead bytes per call (a pipe, a network or decompressing file system);
+	// the end of the file is reported by a separate call
+	MaxRead int
 	// Resize, if set, gives the bytes a reader of p delivers: a file that shrank or grew between listing (the stat
 	// still announces the old size) and reading.
 	Resize func(p string, data []byte) []byte
@@ -86,15 +89,19 @@ type FS struct {
 
 type eofReader struct {
 	data []byte
+	max  int
 }
 
 func (r *eofReader) Read(p []byte) (int, error) {
 	if len(r.data) == 0 {
 		return 0, io.EOF
 	}
+	if r.max > 0 && len(p) > r.max {
+		p = p[:r.max]
+	}
 	n := copy(p, r.data)
 	r.data = r.data[n:]
-	if len(r.data) == 0 {
+	if len(r.data) == 0 && r.max == 0 {
 		return n, io.EOF
 	}
 	return n, nil
@@ -192,6 +199,8 @@ func (f *FS) Open(p string) (io.ReadCloser, error) {
 	var rc io.ReadCloser = io.NopCloser(bytes.NewReader(data))
 	if f.EOFWithData {
 		rc = io.NopCloser(&eofReader{data: data})
+	} else if f.MaxRead > 0 {
+		rc = io.NopCloser(&eofReader{data: data, max: f.MaxRead})
 	}
 	if f.OpenHook != nil {
 		return f.OpenHook(p, rc)
